@@ -288,6 +288,10 @@ def replay(prop, path):
                 return 1
             print("not reproduced")
             return 0
+        if rp.get("engine") != "sess" or "behaviour" not in rp:
+            print("the replay file holds the recorded observation (engine %s); it is re-examined by re-running ./check %s" % (
+                rp.get("engine", "?"), prop))
+            return 0
         p = os.path.join(scratch, "b.jsonl")
         with open(p, "w") as fh:
             fh.write(json.dumps(rp["behaviour"]) + "\n")
